@@ -275,6 +275,17 @@ def judge_public(mtype, action, path, base, x, async_validation, ctx_kwargs):
         with decimal.localcontext(decimal.Context(**ctx_kwargs)):
             try:
                 await validate_payload(msg, "1.6")
+                # ... and the accepted value is WRITTEN with its digits under that context too
+                try:
+                    back = json.loads(msg.to_json(), parse_float=decimal.Decimal)
+                    cur = back[3] if mtype == "Call" else back[2]
+                    for k in path:
+                        cur = cur[k]
+                    want = decimal.Decimal(repr(x)) if isinstance(x, float) else x
+                    if cur != want:
+                        return ("accept", "written as %s" % cur)
+                except Exception as e:  # noqa: BLE001
+                    return ("accept", "to_json raised %s" % type(e).__name__)
                 return ("accept", None)
             except OCPPError as e:
                 return ("reject", e.code)
